@@ -42,16 +42,23 @@ type witness struct {
 type worldSpec struct {
 	n, idx int
 	app    gen.AppKind
+	split  int // 0: none; k+1: participant k has two different keys under two backends
 }
 
-func (w worldSpec) String() string { return fmt.Sprintf("n=%d idx=%d app=%d", w.n, w.idx, w.app) }
+func (w worldSpec) String() string {
+	return fmt.Sprintf("n=%d idx=%d app=%d split=%d", w.n, w.idx, w.app, w.split-1)
+}
 
 func run(r *ev.Run, cfg props.Cfg, prop string) {
 	var worlds []worldSpec
 	for _, app := range []gen.AppKind{gen.AppNone, gen.AppPayment, gen.AppData} {
-		worlds = append(worlds, worldSpec{2, 0, app}, worldSpec{2, 1, app})
+		worlds = append(worlds, worldSpec{2, 0, app, 0}, worldSpec{2, 1, app, 0})
 	}
-	worlds = append(worlds, worldSpec{3, 0, gen.AppPayment}, worldSpec{3, 1, gen.AppNone}, worldSpec{3, 2, gen.AppData})
+	worlds = append(worlds, worldSpec{3, 0, gen.AppPayment, 0}, worldSpec{3, 1, gen.AppNone, 0}, worldSpec{3, 2, gen.AppData, 0})
+	if len(gen.ExtraBackends) > 0 {
+		// a peer whose two addresses are different keys: every AddSig for it must fail atomically
+		worlds = append(worlds, worldSpec{2, 0, gen.AppNone, 2}, worldSpec{3, 0, gen.AppData, 3})
+	}
 
 	var mu sync.Mutex
 	matrix := map[string]*[4]int64{} // phase|op -> [ok fresh, fail fresh, ok after failure, fail after failure]
@@ -116,6 +123,9 @@ func run(r *ev.Run, cfg props.Cfg, prop string) {
 			defer wg.Done()
 			rng := gen.NewRand(cfg.Seed, fmt.Sprintf("cmachine/world/%d", wi))
 			w := mexplore.NewWorld(rng, ws.n, ws.idx, ws.app, 1+wi%2)
+			if ws.split > 0 {
+				w = mexplore.NewWorldSplit(rng, ws.n, ws.idx, ws.app, 1+wi%2, ws.split-1)
+			}
 			st := mexplore.Explore(w, depth, sfx, maxInt(1, cfg.Workers/2), mkObs(ws, w))
 			mu.Lock()
 			totalStates += st.States
